@@ -66,7 +66,6 @@ func verifDir() string {
 
 type proofKey struct{ key, mode, driver string }
 
-
 type Runner struct {
 	eng      *Engine
 	thorough bool
@@ -368,21 +367,21 @@ func runProperty(r *Runner, p *Property, tier string, seed int, t0 time.Time) in
 	eng.pool.mu.Unlock()
 	level := p.Level
 	cov := map[string]interface{}{
-		"obligations":                total,
-		"discharged":                 discharged,
-		"checker_cmd":                fmt.Sprintf("cd /verif && ./check %s --tier %s", p.ID, tier),
-		"trusted_base":               append(append([]string{}, commonTrusted...), p.Trusted...),
-		"functions_under_contract":   fnames,
-		"function_stats":             fstats,
-		"cut_points":                 cuts,
-		"paths":                      paths,
-		"solver_queries":             queries,
-		"solver_seconds":             round3(solverSecs),
-		"backends":                   solverStats,
-		"discharged_by_backend":      backends,
-		"samples":                    samples,
-		"undischarged":               failed,
-		"known_findings_matched":     known,
+		"obligations":              total,
+		"discharged":               discharged,
+		"checker_cmd":              fmt.Sprintf("cd /verif && ./check %s --tier %s", p.ID, tier),
+		"trusted_base":             append(append([]string{}, commonTrusted...), p.Trusted...),
+		"functions_under_contract": fnames,
+		"function_stats":           fstats,
+		"cut_points":               cuts,
+		"paths":                    paths,
+		"solver_queries":           queries,
+		"solver_seconds":           round3(solverSecs),
+		"backends":                 solverStats,
+		"discharged_by_backend":    backends,
+		"samples":                  samples,
+		"undischarged":             failed,
+		"known_findings_matched":   known,
 		"obligations_failing_as_recorded_known_findings": len(known),
 		"vacuity_controls":           controls,
 		"vacuity_controls_feasible":  controlsFeasible,
@@ -488,14 +487,14 @@ type replayResult struct {
 // and run against the real package.
 func writeReplay(eng *Engine, p *Property, e *LedgerEntry, fp *FuncProof, base string) replayResult {
 	info := map[string]interface{}{
-		"property":   p.ID,
-		"obligation": e.Name,
-		"kind":       e.Kind,
-		"function":   e.Fn,
-		"status":     e.Status,
-		"solver":     e.Solver,
-		"detail":     e.Detail,
-		"model":      e.Model,
+		"property":    p.ID,
+		"obligation":  e.Name,
+		"kind":        e.Kind,
+		"function":    e.Fn,
+		"status":      e.Status,
+		"solver":      e.Solver,
+		"detail":      e.Detail,
+		"model":       e.Model,
 		"source_line": e.Line,
 	}
 	if e.failQ != nil {
